@@ -32,6 +32,10 @@ def apply_edit(b, edit):
         m = b.held["m1"] / 2 + b.held["ty1"] ** 2 / 4
         pep.set_performance_metric(m)
         b.held["m_tsample"] = m
+    elif edit == "fcons":        # the function gets its FIRST own constraint after a solve; it caps the metric
+        c = (b.held["m1"] <= 1 / 64)
+        b.f.add_constraint(c)
+        b.held["c_fcons"] = c
     elif edit == "block":        # one more point is decomposed by the partition after a solve
         b.held["blk_d"] = b.part.get_block(b.held["d"], 0)
     elif edit == "infeasible":   # makes the model infeasible
@@ -44,15 +48,16 @@ def apply_edit(b, edit):
         raise KeyError(edit)
 
 
-def post_objects(b):
+def post_objects(b, k=1):
     """objects the user builds AFTER a successful solve from objects held before it (C02: '...including ones built
     after the solve'); the second group is built after a new leaf point was created (finding F13)."""
     from PEPit import Point
     x, x0 = b.held["x"], b.held["x0"]
-    b.held["post_sum"] = x + x0 / 2
-    b.held["post_inner"] = x * x0
-    b.held["post_sq"] = (x - x0) ** 2 - 1
-    b.held["post_con"] = (b.held["post_inner"] <= 1)
+    pre = "post_" if k == 1 else "post%d_" % k
+    b.held[pre + "sum"] = x + x0 / 2
+    b.held[pre + "inner"] = x * x0
+    b.held[pre + "sq"] = (x - x0) ** 2 - 1
+    b.held[pre + "con"] = (b.held[pre + "inner"] <= 1)
 
 
 def postleaf_objects(b):
@@ -126,7 +131,7 @@ def run(item):
             crash = "%s@%s" % (type(e).__name__, (os.path.basename(where[-1].filename) + ":" + where[-1].name) if where else "?")
             out["raise_msg"] = str(e)[:200]
             try:
-                obs = pepsolve.observe(b.pep, None, b.held, with_native=False)
+                obs = pepsolve.observe(b.pep, None, b.held, with_native=False, user_decl=b.user_decl)
             except Exception:
                 out["note"] = "raises:" + crash
                 break
@@ -146,9 +151,9 @@ def run(item):
             out["note"] = "inconclusive:" + ",".join(statuses)
             break
         first_ok = ret is not None and len(out["solves"]) == 0 and len(item["solves"]) == 1
-        if first_ok:
-            post_objects(b)
-        obs = pepsolve.observe(b.pep, ret, b.held)
+        if ret is not None:
+            post_objects(b, len(out["solves"]) + 1)
+        obs = pepsolve.observe(b.pep, ret, b.held, user_decl=b.user_decl)
         obs["postleaf"] = postleaf_objects(b) if first_ok else []
         obs["opts"] = dict(wrapper=kw["wrapper"], mode=kw["return_primal_or_dual"], heur=heur,
                            tol=pepsolve.fx(opts.get("tol", 1e-4)), solver=kw["solver"], verbose=kw["verbose"])
